@@ -106,10 +106,19 @@ CornerVel   == << <<1, 1, 1>>, <<-1, 1, -1>> >>
 MkCorner(mode, q, k) == [kind |-> "ic", mode |-> mode, q |-> q, n |-> 100 + k, yaw |-> Yaws[1], q0 |-> QMul(Yaws[1], q),
                          spi |-> k - 1,
                          off |-> CornerOff[k], vel |-> CornerVel[k], rate |-> <<1, -1, 1>>]
+(* degenerate launches (both tiers): exactly above / below the hover point with purely vertical velocity and level,
+   and exactly ON the hover point at rest but tilted -- the outer loop then demands exactly zero lateral force, the
+   thrust direction is exactly vertical and every "which way is sideways" fallback of the set-point construction is hit *)
+DegQ   == << <<1, 0, 0, 0>>, <<1, 0, 0, 0>>, <<2, 1, 0, 0>>, <<3, 1, 1, 1>> >>
+DegOff == << <<0, 0, 3>>, <<0, 0, -3>>, <<0, 0, 0>>, <<0, 0, 0>> >>
+DegVel == << <<0, 0, -1>>, <<0, 0, 0>>, <<0, 0, 0>>, <<0, 0, 0>> >>
+MkDegenerate(mode, k) == [kind |-> "ic", mode |-> mode, q |-> DegQ[k], n |-> 200 + k, yaw |-> Yaws[1], q0 |-> QMul(Yaws[1], DegQ[k]),
+                          spi |-> k % 2, off |-> DegOff[k], vel |-> DegVel[k], rate |-> <<0, 0, 0>>]
 ICNext == /\ ic.kind = "seed"
           /\ \/ \E n \in 0..PerSeed : /\ n = 0 => ic.q \in HeadingTilts
                                       /\ ic' = MkIC(ic.mode, ic.q, n)
              \/ \E k \in 1..2 : ic.q \in CornerTilts /\ ic' = MkCorner(ic.mode, ic.q, k)
+             \/ \E k \in 1..4 : ic.q = <<1, 0, 0, 0>> /\ ic' = MkDegenerate(ic.mode, k)
           /\ UNCHANGED obs
 ICInv  == ic.kind = "ic" => ICOK(ic) /\ (HeadingZero(ic) <=> ic.n >= 1)
 ICSeedInv == ic.kind = "seed" => AngleLe60(ic.q) /\ Primitive(ic.q)
